@@ -24,8 +24,8 @@ def main():
                 t = time.time(); r = sh('./check %s quick' % c, cwd=V, env=env)
                 res[c] = {'exit': r.returncode, 'violation_lines': r.stdout.count('VIOLATION property='), 'tail': r.stdout.strip().split('\n')[-1][:300], 'secs': round(time.time() - t, 1)}
         finally:
-            sh('git -C %s checkout -- .' % W)
+            sh('git -C %s checkout -- .' % W); sh('rm -rf /tmp/seedscratch')      # builds and output of the mutated tree go with it
         json.dump({'seed': nm, 'property': prop, 'repo_head': sh('git -C /repo rev-parse --short HEAD').stdout.strip(), 'results': res}, open(os.path.join(d, 'detect.json'), 'w'), indent=1)
         print(nm, prop, {k: (v['exit'], v['violation_lines']) for k, v in res.items()} or 'no check for this property yet')
 main()
-sh('git -C /repo worktree remove --force /tmp/seedrepo; git -C /repo worktree prune')
+sh('git -C /repo worktree remove --force /tmp/seedrepo; git -C /repo worktree prune; rm -rf /tmp/seedscratch')
